@@ -83,11 +83,14 @@ class Scen:
             ls.append("pre " + " ".join(self.pre))
         if getattr(self, "again", None):
             ls.append("again " + " ".join(self.again))
+        if getattr(self, "rerun", None):
+            ls.append("rerun")
         return "\n".join(ls + self.root.lines()) + "\n"
 
     def copy(self):
         c = Scen(self.root.copy(), self.mode, self.cap, self.kill)
         if getattr(self, "pre", None): c.pre = self.pre
+        if getattr(self, "rerun", None): c.rerun = self.rerun
         return c
 
 
